@@ -12,7 +12,7 @@ STATUSES = ["clean", "modified-unstaged", "modified-staged", "modified-both", "a
             "typechange-unstaged", "typechange-staged"]
 RULE = ("Real git repositories. A (enumerated, both tiers): every status git can report for a file (clean, modified-unstaged, "
         "modified-staged, modified-both, added, deleted-unstaged, deleted-staged, renamed, renamed-then-edited, untracked, type change (file replaced by a symbolic link) unstaged / staged) x {pattern file (named plainly, as ./path or through a glob), "
-        "unrelated file} x --allow-dirty on/off x file in the top directory or a sub-directory x with/without a (no-op) pre-commit hook (320 cases) plus every status x pattern/unrelated x --allow-dirty for four file names that git prints quoted (blank, blank in the directory, non-ASCII with core.quotePath on and off, double quote + backslash; 200 cases). B (Hypothesis): "
+        "unrelated file} x --allow-dirty on/off x file in the top directory or a sub-directory x with/without a (no-op) pre-commit hook plus every status x pattern/unrelated x --allow-dirty for four file names that git prints quoted (blank, blank in the directory, non-ASCII with core.quotePath on and off, double quote + backslash; 200 cases). B (Hypothesis): "
         "1..4 files (pattern files and unrelated files, sub-directories) with independent statuses, --allow-dirty on/off. "
         "The status text is whatever the real `git status --porcelain` prints. Oracle: expected abort iff (some file has a "
         "tracked change and not --allow-dirty) or (some pattern file has any uncommitted change, untracked included). Abort "
@@ -214,9 +214,11 @@ PARTS = [
 ]
 
 MANIFEST = {
-    "text": "Real git: the complete matrix of file statuses x {pattern file, unrelated file} x --allow-dirty x directory depth "
-            "(320 cases, both tiers) plus generated compositions of up to four files; abort/proceed is predicted from the "
-            "property's rule, and tree, index, HEAD, tags and the committed content of pattern files are inspected with git.",
-    "note": "Real git 2.39 produces the status text. Plain ASCII file names without blanks. One bump scenario.",
+    "text": ("Real git: the complete matrix of file statuses (incl. renamed-then-edited and type changes) x {pattern file, "
+            "unrelated file} x --allow-dirty x directory depth x how the file is named in the config x pre-commit hook, and the same "
+            "statuses for file names that git prints quoted (blanks, quotes, backslash, non-ASCII with core.quotePath on/off) - "
+            "%d cases, both tiers - plus generated compositions of up to four files; abort/proceed is predicted from the "
+             "property's rule, and tree, index, HEAD, tags and the committed content of pattern files are inspected with git.") % len(matrix("quick")),
+    "note": "Real git 2.39 produces the status text. File names with line breaks or ' -> ' inside are not generated. One bump scenario.",
     "technique": "exhaustive enumeration of the status matrix + property-based testing (Hypothesis) on real git repositories; rule-derived oracle",
 }
